@@ -134,6 +134,12 @@ def gen(quick):
                             yield dict(requested=[(N.B, (N.T1,)), (N.A, (N.T1,))], supported=base_sup, ext=sub, roles=roles, userid_type=ut, userid_response=rr)
                 else:
                     yield dict(requested=[(N.B, (N.T1,)), (N.A, (N.T1,))], supported=base_sup, ext=sub, roles=roles)
+    # context objects that already carry IDs when handed to associate() (reused from an earlier association)
+    for n in (2, 3):
+        req = [((N.A, N.B, N.Q)[i % 3], (N.T1,)) for i in range(n)]
+        for ids in itertools.product((None, 1, 3, 5, 255), repeat=n):
+            if any(i is not None for i in ids):
+                yield dict(requested=req, supported=base_sup, preset_ids=list(ids))
     # nothing acceptable / everything rejected
     yield dict(requested=[(N.U, (N.T1,))], supported=base_sup)
     yield dict(requested=[(N.B, (N.T3,))], supported=base_sup)
